@@ -464,11 +464,16 @@ def check_r123(fx, rep):
     for b, root, node, ps in sites:
         rep.fn(b["def"])
         mutated = T.mutated_locals(root)
-        conds = [anc["cond"] for anc, key in ps if anc.get("k") == "If" and key == "then"]
+        # the validity flag the construction sits under: `if flag { build }` or an earlier `if !flag { return None }`
         flag_locals = set()
-        for c in conds:
-            l = F.local_of(c)
-            if l is not None:
+        for c, holds in T.path_conditions(ps, node):
+            c0 = F.strip(c)
+            neg = False
+            while c0.get("k") == "Unary" and c0.get("op") == "Not":
+                c0 = F.strip(c0["e"])
+                neg = not neg
+            l = F.local_of(c0)
+            if l is not None and holds != neg:
                 flag_locals.add(l)
         # find the closure/function scope containing the node
         scope = root
